@@ -163,6 +163,7 @@ func runC07(a *A) {
 	a.Rule("whomay/having-binding", 3, func() { a.ruleHavingBinding() })
 	a.Rule("flow/delivered-batch-fresh", 7, func() { a.ruleDeliveredBatchFresh() })
 	a.Rule("shape/whole-call-slice", 4, func() { a.ruleWholeCallSlice("rsql", "aggregator") })
+	a.Rule("flow/expression-argument-registered", 3, func() { a.ruleExpressionArgumentRegistered() })
 }
 
 func (a *A) ruleOrderComparator() {
@@ -600,4 +601,81 @@ func constText(v ssa.Value) string {
 		return constText(bo.X) + constText(bo.Y)
 	}
 	return ""
+}
+
+// ruleExpressionArgumentRegistered: ParseAggregateTypeWithExpression returns the aggregate type and,
+// for an argument that is an expression (sum(v*2)), the expression to evaluate per row. A caller that
+// registers the aggregate (stores the type into a map) must also register the expression; dropping it
+// silently turns sum(v*2) into sum(v).
+func (a *A) ruleExpressionArgumentRegistered() int {
+	parse := a.Func("rsql", "ParseAggregateTypeWithExpression")
+	n := 0
+	reach := a.APIReach()
+	for _, fn := range a.ModFuncs {
+		if !reach[fn] {
+			continue // e.g. buildSelectFields: kept for its unit tests, not reachable from Execute
+		}
+		for _, site := range callsTo(fn, parse) {
+			call, ok := site.(*ssa.Call)
+			if !ok {
+				continue
+			}
+			var typ, expr *ssa.Extract
+			for _, r := range *call.Referrers() {
+				if ex, ok := r.(*ssa.Extract); ok {
+					switch ex.Index {
+					case 0:
+						typ = ex
+					case 2:
+						expr = ex
+					}
+				}
+			}
+			if typ == nil {
+				continue
+			}
+			registers := false
+			for v := range flowsForward(typ) {
+				if v.Referrers() == nil {
+					continue
+				}
+				for _, r := range *v.Referrers() {
+					if mu, ok := r.(*ssa.MapUpdate); ok && mu.Value == v {
+						registers = true
+					}
+				}
+			}
+			if !registers {
+				continue
+			}
+			n++
+			construct := fname(fn) + "#registers-expression"
+			used := false
+			if expr != nil {
+				for v := range flowsForward(expr) {
+					if v.Referrers() == nil {
+						continue
+					}
+					for _, r := range *v.Referrers() {
+						switch u := r.(type) {
+						case *ssa.Store:
+							if u.Val == v {
+								used = true
+							}
+						case *ssa.MapUpdate:
+							if u.Value == v {
+								used = true
+							}
+						case *ssa.Return:
+							used = true
+						}
+					}
+				}
+			}
+			a.Check(used, construct, call.Pos(),
+				"the aggregate is registered together with its expression argument",
+				"the aggregate type returned by ParseAggregateTypeWithExpression is registered, the expression argument it returned is dropped: agg(x*2) would be computed as agg(x)")
+		}
+	}
+	return n
 }
